@@ -940,7 +940,12 @@ impl<'p> Evaluator<'_, 'p> {
             }
             None
         } else {
-            float::try_to_usize(maxsplits).and_then(|v| v.checked_add(1))
+            // A count too large for `usize` still splits from the right.
+            Some(
+                float::try_to_usize(maxsplits)
+                    .and_then(|v| v.checked_add(1))
+                    .unwrap_or(usize::MAX),
+            )
         };
 
         let result_array = if let Some(maxsplits) = maxsplits {
